@@ -914,7 +914,57 @@ func (b *b4) checkModel(g gmodel, maxOrders int, rng *rand.Rand) {
 	if err != nil {
 		return // not a valid DSL model (e.g. reference to an undefined relation is fine for the parser; syntax is ours)
 	}
-	id := g.id
+	b.checkProto(g.id, model, maxOrders, rng)
+	// the same model with the operands of every root union / intersection in reverse order: not expressible in DSL when a
+	// direct assignment is among them (the DSL wants it first), but a valid JSON / protobuf model
+	if rev, changed := reverseRootOperands(model); changed {
+		b.checkProto(g.id+" [root operands reversed]", rev, maxOrders, rng)
+	}
+	// ... and with every relation of doc wrapped into a union with that single operand (JSON / protobuf only): an operator
+	// occurrence has its node whatever the number of operands
+	b.checkProto(g.id+" [wrapped in single-operand unions]", wrapInSingleUnions(model), maxOrders, rng)
+}
+
+func wrapInSingleUnions(m *openfgav1.AuthorizationModel) *openfgav1.AuthorizationModel {
+	c := proto.Clone(m).(*openfgav1.AuthorizationModel)
+	for _, td := range c.GetTypeDefinitions() {
+		if td.GetType() != "doc" {
+			continue
+		}
+		for name, u := range td.GetRelations() {
+			if name == "parent" {
+				continue
+			}
+			td.Relations[name] = &openfgav1.Userset{Userset: &openfgav1.Userset_Union{Union: &openfgav1.Usersets{Child: []*openfgav1.Userset{u}}}}
+		}
+	}
+	return c
+}
+
+func reverseRootOperands(m *openfgav1.AuthorizationModel) (*openfgav1.AuthorizationModel, bool) {
+	c := proto.Clone(m).(*openfgav1.AuthorizationModel)
+	changed := false
+	for _, td := range c.GetTypeDefinitions() {
+		for _, u := range td.GetRelations() {
+			var kids []*openfgav1.Userset
+			switch x := u.GetUserset().(type) {
+			case *openfgav1.Userset_Union:
+				kids = x.Union.GetChild()
+			case *openfgav1.Userset_Intersection:
+				kids = x.Intersection.GetChild()
+			}
+			if len(kids) > 1 {
+				for i, j := 0, len(kids)-1; i < j; i, j = i+1, j-1 {
+					kids[i], kids[j] = kids[j], kids[i]
+				}
+				changed = true
+			}
+		}
+	}
+	return c, changed
+}
+
+func (b *b4) checkProto(id string, model *openfgav1.AuthorizationModel, maxOrders int, rng *rand.Rand) {
 	sem := newSemantics(model).semantic()
 	before := proto.Clone(model)
 	// reference: the real Build, a few times (map order sampled)
